@@ -100,6 +100,13 @@ TraceVote ==
        ELSE UNCHANGED << rvars, acceptedLog, bridgeDirty, tip, curKey >>
   /\ UNCHANGED << now, height, bridge >>
 
+(* verify (C01, payload binding): the keeper's VerifyProposal called directly on a message whose vote an honest quorum  *)
+(* produced for the content named in doc.payload, presented with the content named in payload; nothing changes.       *)
+TraceVerify ==
+  /\ IsEvent("verify")
+  /\ B("vote") => (Ev.ok = QuorumOk(VoteMsg(Ev), Ev.kind, Ev.payload))
+  /\ UNCHANGED << rvars, now, height, bridge, bridgeDirty, acceptedLog, tip, curKey >>
+
 TraceNewVoter ==
   /\ IsEvent("newvoter")
   /\ LET p == [pf |-> Ev.pf, voter |-> Ev.voter, sizesOk |-> Ev.sizesOk, keyHashOk |-> Ev.keyHashOk,
@@ -169,7 +176,7 @@ TraceReimport ==
      /\ StateFrom(st)
   /\ UNCHANGED << now, height, bridge, bridgeDirty, acceptedLog, tip, curKey >>
 
-TNext == TraceReimport \/ TraceInitEv \/ TraceBegin \/ TraceEl \/ TraceVote \/ TraceNewVoter \/ TraceAccept
+TNext == TraceReimport \/ TraceInitEv \/ TraceBegin \/ TraceEl \/ TraceVote \/ TraceVerify \/ TraceNewVoter \/ TraceAccept
          \/ TraceNonVoted \/ TraceOther \/ TraceEnd
 
 Reached == PrintT(<<"TRACE_REACHED", TLCGet("stats").diameter - 1, Len(Trace)>>)
